@@ -225,11 +225,14 @@ void do_catch (const char *p, unsigned short new_pc_offset) {
       if (get_error_state (ES_MAX_EVAL_COST))
         {
           pop_context (&econ);
+          /* pop_context() clears the error state: keep it for the enclosing catch frames */
+          set_error_state (ES_MAX_EVAL_COST);
           error ("*Can't catch eval cost too big error.");
         }
       if (get_error_state (ES_STACK_FULL))
         {
           pop_context (&econ);
+          set_error_state (ES_STACK_FULL);
           error ("*Can't catch too deep recursion error.");
         }
     }
